@@ -82,7 +82,8 @@ def check(ctx, adt=T.ANIM_ADT):
                    trace_of(p), what="advance-writes-" + role)
         # R2: values recomputed from the absolute accumulated time
         ups = calls(p, lambda e: is_trait_call(e, T.TL_TRAIT, "update"))
-        has = [v for (c, v, s) in p.conds if c[0] == "discr" and c[1][0] == "optref-of"]
+        hd = T.entry_decision(p, R, init("current_state"))
+        has = [] if hd is None else [hd]
         if ups:
             u = ups[0]
             a = u["descs"][2]
